@@ -993,7 +993,16 @@ def ec_base(kid):
     name, size, idx = kid.split("/")
     cv = curve(name)
     r = random.Random("%d/c05/ec-base/%s" % (SEED, kid))
-    if cv.kind == "ws":
+    if cv.kind == "ws" and size == "tiny":
+        # the point with the smallest abscissa (public forms only; its discrete logarithm is not known): x + p still fits the coordinate width
+        x = 0
+        while True:
+            y = sqrt_mod((x ** 3 + cv.a * x + cv.b) % cv.p, cv.p)
+            if y is not None and y != 0:
+                break
+            x += 1
+        t = {"c": name, "enc": name, "d": 0, "x": x, "y": y}
+    elif cv.kind == "ws":
         d = 1 if size == "one" else (r.getrandbits(12) | (1 << 11)) if size == "short" else r.randrange(1 << (cv.n.bit_length() - 2), cv.n)
         Q, _ = mul_links(cv, d)
         t = {"c": name, "enc": name, "d": d, "x": Q[0], "y": Q[1]}
